@@ -21,7 +21,7 @@ from vlib.gen import rhash
 
 PROPERTY = "C03"
 LEVEL = "exploration"
-TIMEOUT = {"quick": 900, "thorough": 5400}
+TIMEOUT = {"quick": 1500, "thorough": 7200}
 RULE = (
     "programs from the PROGRAMS table (every operation family of the public API and compositions) x geometry {square, "
     "skinny, uneven last chunk} at chunk sizes where data dominates (about 2 MB quick / 8 MB thorough) x dtype {float64, "
@@ -31,7 +31,7 @@ RULE = (
 )
 ASSUMPTIONS = [
     "tracemalloc sees NumPy data buffers and Python-level buffers of zarr/numcodecs; C-level allocations inside compression codecs are not traced",
-    "reserved_mem = 2 x the calibrated non-data peak of trivial tasks, rounded up to 100 kB (the user guide's procedure with tracemalloc instead of process RSS)",
+    "reserved_mem = max(300 kB, 4 x the calibrated non-data peak of trivial tasks) (the user guide's procedure with tracemalloc instead of process RSS)",
     "an under-projection smaller than the slack of that operation/geometry is invisible; the evidence reports the maximum observed ratio per operation and compressor",
 ]
 NSHARDS = {"quick": 16, "thorough": 32}
@@ -154,7 +154,7 @@ def calibrate(workdir):
         if rep:
             peak = max([peak] + [r["peak"] for r in tm.records])
     _CAL["nondata_peak"] = peak
-    _CAL["reserved"] = int(-(-2 * peak // 100_000) * 100_000)
+    _CAL["reserved"] = max(300_000, int(-(-4 * peak // 100_000) * 100_000))
     shutil.rmtree(wd, ignore_errors=True)
     return _CAL["reserved"]
 
